@@ -38,6 +38,9 @@ FieldsVerdict(ev) ==
      ELSE IF fam = "v3" /\ ev.ver # VersionOf(ev.s) THEN "fields:version " \o ev.ver \o " for '" \o ev.s \o "'"
      ELSE IF fam = "v2" /\ L # "B" /\ ev.tempEmpty # ~GroupPresent(fam, ev.s, "T") THEN "fields:temporal group emptiness for '" \o ev.s \o "'"
      ELSE IF fam = "v2" /\ L = "E" /\ ev.envEmpty # ~GroupPresent(fam, ev.s, "E") THEN "fields:environmental group emptiness for '" \o ev.s \o "'"
+     \* the harness reads the fields again after it has asked its queries of the object and its views, and
+     \* reports them (f2) only when they are no longer the ones read right after Decode
+     ELSE IF Has(ev, "f2") THEN "fields:the fields decoded from '" \o ev.s \o "' changed while the object was queried"
      ELSE "ok"
 
 EncVerdict(ev) ==
